@@ -1194,3 +1194,119 @@ def c11_p(ctx):
                       '`{}` returns the (1, 1)-shaped value of evaluate(): mcmc.nuts applies '
                       'float() to comparisons with it - TypeError with the installed numpy, '
                       'RandMaxVar cannot acquire'.format(src(r)[:60]), fn=fi[0], node=r)
+
+
+_GRAD_OF = {'evaluate': 'evaluate_gradient', 'logpdf': 'gradient_logpdf',
+            'pdf': 'gradient_pdf', 'predict_mean': 'predictive_gradient_mean',
+            'predict_var': 'predictive_gradient_var'}
+
+
+def _single_return(node):
+    body = [s for s in node.body if not (isinstance(s, ast.Expr) and
+                                         isinstance(s.value, ast.Constant))]
+    if len(body) == 1 and isinstance(body[0], ast.Return) and body[0].value is not None:
+        return body[0].value
+    return None
+
+
+def _signed_call(e, param):
+    """`[-] owner.meth(param, extra...)` / `-1 * owner.meth(param, ...)` -> (sign, owner, meth,
+    extras) or None."""
+    sign = 1
+    while True:
+        if isinstance(e, ast.UnaryOp) and isinstance(e.op, ast.USub):
+            sign, e = -sign, e.operand
+        elif isinstance(e, ast.BinOp) and isinstance(e.op, ast.Mult) and any(
+                isinstance(s, ast.UnaryOp) and isinstance(s.op, ast.USub) and
+                isinstance(s.operand, ast.Constant) and s.operand.value == 1
+                for s in (e.left, e.right)):
+            neg_left = isinstance(e.left, ast.UnaryOp) and isinstance(e.left.operand, ast.Constant)
+            sign, e = -sign, (e.right if neg_left else e.left)
+        else:
+            break
+    if not (isinstance(e, ast.Call) and isinstance(e.func, ast.Attribute) and e.args and
+            isinstance(e.args[0], ast.Name) and e.args[0].id == param):
+        return None
+    extras = tuple(ast.dump(a) for a in e.args[1:]) + tuple(
+        sorted('{}={}'.format(k.arg, ast.dump(k.value)) for k in e.keywords))
+    return sign, ast.unparse(e.func.value), e.func.attr, extras
+
+
+def _objective_of(ctx, fn, e):
+    """What the callable `e` (an argument of minimize) computes: (sign, owner, method, extras)."""
+    if isinstance(e, ast.Lambda) and e.args.args:
+        return _signed_call(e.body, e.args.args[0].arg)
+    if isinstance(e, ast.Name):
+        for n in ast.walk(fn.node):
+            if isinstance(n, ast.FunctionDef) and n.name == e.id and n is not fn.node:
+                v = _single_return(n)
+                if v is None or not n.args.args:
+                    return None
+                return _signed_call(v, n.args.args[0].arg)
+        return None
+    if isinstance(e, ast.Attribute):
+        owner = ast.unparse(e.value)
+        if owner == 'self' and fn.cls is not None:
+            m = ctx.repo.find_method(fn.cls, e.attr) if hasattr(ctx.repo, 'find_method') else None
+            if m is None:
+                m = fn.cls.methods.get(e.attr)
+            if m is not None:
+                v = _single_return(m.node)
+                ps = m.params
+                if v is not None and len(ps) >= 2:
+                    sc = _signed_call(v, ps[1])
+                    if sc is not None and sc[1] == 'self' and sc[2] in set(_GRAD_OF) | set(
+                            _GRAD_OF.values()):
+                        return sc
+        return 1, owner, e.attr, ()
+    return None
+
+
+@obligation('C11-q', 'T8 T13', 'the optimiser receives a function and its own gradient: at every '
+            'call of minimize the gradient argument is the derivative method of the objective '
+            'method, of the same object, with the same sign and the same further arguments',
+            floor=3,
+            necessary='L-BFGS-B follows the gradient it is given: the gradient of the negated or of '
+                      'another function sends the acquisition to a point that does not optimise '
+                      'the acquisition function (the acquired points stay inside the bounds, so '
+                      'nothing else notices)')
+def c11_q(ctx):
+    mz = ctx.fn('elfi.methods.bo.utils:minimize')
+    n = 0
+    for fn in ctx.repo.all_functions():
+        if not fn.module.name.startswith('elfi.methods') or fn is mz:
+            continue
+        for c in ctx.calls(fn, name='minimize'):
+            if mz not in ctx.cg.resolve(fn, c, may=True):
+                continue
+            b = {}
+            names = mz.params
+            for i, a in enumerate(c.args):
+                if i < len(names):
+                    b[names[i]] = a
+            for k in c.keywords:
+                if k.arg:
+                    b[k.arg] = k.value
+            f, g = b.get(names[0]), b.get('grad')
+            if f is None:
+                continue
+            if g is None or (isinstance(g, ast.Constant) and g.value is None):
+                continue
+            n += 1
+            of, og = _objective_of(ctx, fn, f), _objective_of(ctx, fn, g)
+            if of is None or og is None:
+                ctx.undecided('{}:{}: the objective / gradient handed to minimize is not a '
+                              '(negated) method call of the argument'.format(fn.qname, c.lineno))
+                continue
+            want = _GRAD_OF.get(of[2])
+            ok = want is not None and og[2] == want and of[0] == og[0] and of[1] == og[1] and \
+                of[3] == og[3]
+            ctx.check(ok, fn, 'objective and gradient belong together',
+                      '{}{}.{} with {}{}.{}'.format('-' if of[0] < 0 else '', of[1], of[2],
+                                                    '-' if og[0] < 0 else '', og[1], og[2]),
+                      'minimize is given {}{}.{}{} as objective but {}{}.{}{} as its gradient'.format(
+                          '-' if of[0] < 0 else '', of[1], of[2], list(of[3]) or '',
+                          '-' if og[0] < 0 else '', og[1], og[2], list(og[3]) or ''),
+                      fn=fn, node=c)
+    if n < 3:
+        raise AnchorMissing('expected at least 3 minimize calls with a gradient, found {}'.format(n))
